@@ -49,6 +49,9 @@ func verifPickMembers(t string, max int) []string {
 
 var verifGroupList = false
 
+// verifOnlyGroups: every rule source is an address-group (cheaper runs with two groups)
+var verifOnlyGroups = false
+
 func verifMkVsys(t string, n int, grpNames []string, maxMembers int, svcPort string, rulePrefix string) *verifVsys {
 	v := &verifVsys{}
 	used := map[string]bool{}
@@ -72,7 +75,7 @@ func verifMkVsys(t string, n int, grpNames []string, maxMembers int, svcPort str
 			}
 			r.Source = append([]string{}, grpNames...)
 			vf.Cover("source list with two address-groups")
-		} else if len(grpNames) > 0 && vf.Bool(rt+".srcIsGroup") {
+		} else if len(grpNames) > 0 && (verifOnlyGroups || vf.Bool(rt+".srcIsGroup")) {
 			gi := 0
 			if len(grpNames) > 1 {
 				gi = vf.FixInt(vf.Int(rt+".group", 0, len(grpNames)-1))
@@ -530,6 +533,7 @@ func VerifPAN() {
 	cut := vf.Param("cut", "0") == "1"
 	verifSrcMax, _ = strconv.Atoi(vf.Param("srcmax", "2"))
 	verifGroupList = vf.Param("glist", "0") == "1"
+	verifOnlyGroups = vf.Param("onlygroups", "0") == "1"
 	vf.Assumption("PAN-OS: one vsys, rules with symbolic action and a source that is a sorted list of 1..2 of 3 addresses or an address-group (1.." + strconv.Itoa(MM) + " members); other rule attributes fixed; addresses and one service are defined on both sides, the service port differs on the device or not")
 	vf.Assumption("PAN-OS model: set creates or extends, edit replaces, delete of a rule/member/object must find it, delete of an address or address-group is rejected while referenced, 'move before dst' needs dst, rules and groups may only refer to existing addresses/groups/services")
 	vf.Assumption("encoding/xml stub: values with symbols are marshalled to blob tokens and merged back by field name; Marshal injective, Unmarshal(Marshal(v)) == v")
